@@ -371,7 +371,10 @@ impl GrandState {
             EnterSubshellOption::ClearInternalDisposition => new_setting,
             EnterSubshellOption::Ignore => Disposition::Ignore,
         };
-        if old_disposition != new_disposition
+        // With the `Ignore` option, the caller may have blocked the signal until
+        // it is ignored here. Setting the disposition also unblocks the signal,
+        // so it is done even if the signal is already ignored.
+        if (old_disposition != new_disposition || option == EnterSubshellOption::Ignore)
             && let Condition::Signal(signal) = cond
         {
             system.set_disposition(signal, new_disposition).await?;
